@@ -226,7 +226,7 @@ EXECUTORS = {"prim": ex_prim, "e2e": ex_e2e, "maps": ex_maps}
 def run(ctx):
     install(ctx)
     thorough = ctx.tier == "thorough"
-    npz = (300000 if thorough else 6000) // ctx.nshards
+    npz = (2400000 if thorough else 6000) // ctx.nshards
     for j in range(npz):
         r = ctx.rng("c16p", j)
         if j % 3 == 0:
@@ -257,7 +257,7 @@ def run(ctx):
         if j % 500 == 0:
             ctx.sample({"shape": shape, "rates_first": lam.ravel()[:5], "counts_first": w.ravel()[:8], "zero_rate_bins": int((lam == 0).sum()),
                         "zero_rate_active_class": zero_active_class})
-    ne = (10000 if thorough else 240) // ctx.nshards
+    ne = (80000 if thorough else 240) // ctx.nshards
     for j in range(ne):
         r = ctx.rng("c16e", j)
         case = gridcases.gen_case(r, max_cells=30, max_mag=5, max_events=40, rate_lo=-9, rate_hi=1, events_in_zero=(j % 6 == 0))
